@@ -22,7 +22,9 @@ TInit == /\ tid \in 1..Len(Traces) /\ l = 1
 (* Design invariants conjoined primed into the steps; each step conjoins those that mention a
    variable it changes (SenderInv speaks about body and wire only). *)
 Step(A, I) == /\ l <= Len(T.ev) /\ A /\ I /\ l' = l + 1 /\ UNCHANGED tid
-RecvInv == RefInv /\ NoLoss /\ EndOnlyAtTerminator /\ EndToEnd
+\* per delivery: the real server's output is compared with the machine's (E.out) and with the real one-piece run
+\* of the prefix (E.one); the reference decoding of the whole stream is evaluated once everything is consumed.
+RecvInv == RefInvSync /\ NoLoss /\ EndOnlyAtTerminator /\ EndToEnd
 
 TSend    == /\ E.e = "send"   /\ Step(Send(E.body, E.wire), Inv')            /\ E.pre = last'.pre
 TInject  == /\ E.e = "inject" /\ Step(Inject(E.body, E.tail, E.wire), Inv')  /\ E.pre = last'.pre
@@ -31,7 +33,7 @@ TDeliver == /\ E.e = "deliver"
             /\ E.exc = ""
             /\ E.out = last'.out
             /\ E.one = out'
-TEnd     == /\ E.e = "end" /\ Step(End, RecvInv') /\ E.sent = last'.sent
+TEnd     == /\ E.e = "end" /\ Step(End, RecvInv') /\ E.sent = last'.codes
 
 TNext == TSend \/ TInject \/ TDeliver \/ TEnd
 TSpec == TInit /\ [][l <= Len(T.ev) /\ TNext]_<<vars, tid, l>>
